@@ -734,6 +734,9 @@ class SmtLibParser(object):
                 raise PysmtSyntaxError("Expected '(' in let binding",
                                        tokens.pos_info)
             vname = self.parse_atom(tokens, "expression")
+            if vname in newvals:
+                raise PysmtSyntaxError("Variable '%s' is bound twice by the "
+                                       "same let" % vname, tokens.pos_info)
             expr = cast(Union[str, FNode], assert_not_none(self.get_expression(tokens)))
             newvals[vname] = expr
             # The bindings of a let are simultaneous: a name that already
